@@ -347,7 +347,9 @@ fn parse_rules(schema: &str) -> Vec<RuleLine> {
         i += 1;
         continue;
       }
-      let is_id = c.is_ascii_alphanumeric() || "@_$-.".contains(c);
+      // ".." / "..." is the range operator, not part of an identifier
+      let range_dot = c == '.' && ((i + 1 < cs.len() && cs[i + 1] == '.') || (i > 0 && cs[i - 1] == '.'));
+      let is_id = !range_dot && (c.is_ascii_alphanumeric() || "@_$-.".contains(c));
       if is_id && !(cur.is_empty() && (c == '.' || c == '-' || c.is_ascii_digit())) {
         cur.push(c);
       } else {
